@@ -16,7 +16,7 @@ import cssutils.script
 from checks.c03_roundtrip import LOSSLESS, Prefs, flatten_nested_comments
 from vlib import cssmodel as A
 from vlib.reported import reported_sub
-from vlib.runner import VERIF, Sub, Violation, frame_sig
+from vlib.runner import VERIF, Sub, Violation, frame_sig, lib
 
 PROPERTY = 'C19'
 RULE = (
@@ -671,14 +671,16 @@ def check_listed(case, ctx):
             imp = sheet.cssRules[0].styleSheet
             got = list(cssutils.getUrls(imp))
             cssutils.ser.prefs.resolveVariables = True
-            flat = cssutils.resolveImports(sheet).cssText.decode()
+            with lib('flatten'):
+                flat = cssutils.resolveImports(sheet).cssText.decode()
             if 'img/v.png' not in got or 'url(sub/img/v.png)' not in flat:
                 raise Violation('listed:url-in-variables-not-enumerated', f'getUrls of the imported sheet: {got}; flattened: {flat!r}')
         else:
             fs = {'http://h/a.css': '@namespace x "urn:one"; x|q { top: 0 }', 'http://h/b.css': '@namespace x "urn:two"; x|q { left: 0 }'}
             sheet = cssutils.CSSParser(fetcher=lambda u: (None, fs[u]) if u in fs else None).parseString('@import "a.css"; @import "b.css";', href='http://h/m.css')
-            flat = cssutils.resolveImports(sheet)
-            re_ = cssutils.parseString(flat.cssText)
+            with lib('flatten'):
+                flat = cssutils.resolveImports(sheet)
+                re_ = cssutils.parseString(flat.cssText)
             uris = []
             for r in re_.cssRules:
                 if r.type == r.STYLE_RULE:
